@@ -31,7 +31,7 @@ TIMEOUT = {"quick": 1500, "thorough": 7200}
 RULE = (
     "scenario = (n inputs, use_backups, batch_size, up to 3 special inputs each with an original outcome from {fast ok, "
     "fast error, early-straggle error, straggle ok, straggle error} and a backup outcome from {ok/error} x {soon, late, "
-    "simultaneous with the original} x {handled before/after the original}); n in {1,2,3,10,11,12,13,25}; batch_size in "
+    "simultaneous with the original} x {handled before/after the original}); n in {1,2,3,10,11,12,13,25} and, in 2% of the sampled scenarios, {1001,1100,1700,2600}; batch_size in "
     "{None,1,4,n-1,n,n+3}. Quick enumerates all single-special scenarios and samples the rest; thorough enumerates all "
     "pairs. Non-trivial = at least one failure or straggler in the script; distinct by hash of the scenario. Part (B): "
     "retries in {0,1,2} x k failures in {0..3}"
@@ -67,7 +67,7 @@ def run_scenario(sc):
 
     CLOCK.install()
     CLOCK.now = 1000.0
-    loop = vtime.new_loop(CLOCK, bound_s=2000.0)
+    loop = vtime.new_loop(CLOCK, bound_s=2000.0 + 45.0 * sc["n"])
     asyncio.set_event_loop(loop)
     n = sc["n"]
     subs = {i: [] for i in range(n)}
@@ -197,6 +197,8 @@ def single_special_scenarios():
 
 def random_scenario(rng, k=None):
     n = rng.choice([10, 11, 12, 13, 25, 3])
+    if rng.random() < 0.02:
+        n = rng.choice([1001, 1100, 1700, 2600])  # more inputs in flight than any bound on the futures waited on
     ub = rng.random() < 0.8
     bs = rng.choice(batch_sizes(n))
     k = k if k is not None else rng.choice([2, 2, 3])
